@@ -239,7 +239,7 @@ func (g *seqGen) table() []wop {
 	case "sweep":
 		bump(map[string]int{"Advance": 3, "CleanUp": 5, "Set": 2, "SetExpiresAfter": 3, "GetIfPresent": 2})
 	case "persist":
-		bump(map[string]int{"SaveLoad": 12, "Set": 2, "Advance": 2})
+		bump(map[string]int{"SaveLoad": 12, "Set": 2, "Advance": 2, "SetMaximum": 5})
 	case "stats":
 		bump(map[string]int{"Get": 2, "BulkGet": 3, "Compute": 2, "ComputeIfAbsent": 2, "ComputeIfPresent": 2, "GetEntryQuietly": 2, "Refresh": 2})
 	}
@@ -299,6 +299,9 @@ func (g *seqGen) genOp() seqOp {
 		}
 	case "SetMaximum":
 		op.M = int64(g.rng.Intn(int(g.cfg.Max) + 4))
+		if (g.prof == "persist" || g.prof == "size") && g.rng.Intn(3) == 0 {
+			op.DK = "fit" // exactly full: resolved by the driver at run time
+		}
 	case "Advance":
 		switch g.rng.Intn(10) {
 		case 0:
